@@ -79,6 +79,11 @@ def run_check(mod, ctx, audit, budget):
                     pass
                 res.diverge('the check raised an unexpected exception while driving the real code (behaviour outside what the harness expects)',
                             last, 'no exception', traceback.format_exc()[-1500:])
+            if ctx.batch.failed:
+                if audit.build_ok:
+                    print(ctx.batch.failed)
+                    os._exit(4)
+                res.notes.append('model driver unavailable because the build is broken: ' + ctx.batch.failed[:200])
             with open(rf, 'wb') as f:
                 pickle.dump(res, f)
         except BaseException:  # noqa: BLE001
